@@ -133,6 +133,27 @@ def step (line : String) : String :=
     | some (some (.res p)), some (some (.res q)), some st =>
       showR (fun l => "[" ++ ",".intercalate (l.map showPeriod) ++ "]") (periodsFromUntil p q st)
     | _, _, _ => "bad-op"
+  | "enc" :: args =>   -- get_encompassing_span: `-` = None, `A:<p|->,<p|->` = object with start/end attributes, `S:p,-,p` = sequence
+    let parseP : String → Option (Option Period) := fun w =>
+      if w = "-" then some none else match endpoint? w with | some (some (.res p)) => some (some p) | _ => none
+    let parseArg : String → Option (Option EncArg) := fun w =>
+      if w = "-" then some none
+      else if w.startsWith "A:" then
+        (match ((w.drop 2).toString.splitOn ",").mapM parseP with
+          | some [a, b] => some (some (.attrs a b))
+          | _ => none)
+      else if w.startsWith "S:" then
+        let body := (w.drop 2).toString
+        (match (if body = "" then [] else body.splitOn ",").mapM parseP with
+          | some l => some (some (.seq l))
+          | none => none)
+      else none
+    (match args.mapM parseArg with
+      | some as =>
+        showR (fun (r : Span × Option Period × Option Period) =>
+          observe r.1 ++ " " ++ (match r.2.1 with | some p => showPeriod p | none => "-") ++ " " ++
+            (match r.2.2 with | some p => showPeriod p | none => "-")) (encompassing as)
+      | none => "bad-op")
   | "span>>" :: a :: b :: rest => match endpoint? a, endpoint? b with
     | some a, some b =>
       (match Span.rshift a b with
